@@ -23,6 +23,7 @@ MOUNTS = {
     "region_h.rs": ("src/tree_store/page_store/region.rs", "verif_kani"),
     "pm_h.rs": ("src/tree_store/page_store/page_manager.rs", "verif_kani"),
     "btree_h.rs": ("src/tree_store/btree_base.rs", "verif_kani"),
+    "btreepol_h.rs": ("src/tree_store/btree_base.rs", "verif_kani_pol"),
     "tt_h.rs": ("src/tree_store/table_tree_base.rs", "verif_kani"),
     "tracker_h.rs": ("src/transaction_tracker.rs", "verif_kani"),
     "base_h.rs": ("src/tree_store/page_store/base.rs", "verif_kani"),
